@@ -42,10 +42,32 @@ def natural_loops(body):
     return out
 
 
+def _checker_body(db, t):
+    cb = db.bodies.get(t["callee"].get("resolved") or "") or db.bodies.get(callee_def(t))
+    if cb is None or cb.crate != "s3s" or "aws_chunked_stream" not in cb.name:
+        return None
+    if any(short(callee_def(t2)) == "create_chunk_string_to_sign" for x in db.nested(cb) for _, t2 in x.calls()):
+        return cb
+    return None
+
+
+def _is_checker(db, t):
+    """the call that verifies one chunk: a function of the chunk module that builds the chunk string to sign (whatever it is called, whether
+    it answers with Option, bool or Result)"""
+    return _checker_body(db, t) is not None
+
+
+def _keep_checker(db, caller, term, callee):
+    """inlining policy for the chunk reader: everything the default policy inlines, except the chunk checker"""
+    if callee is not None and any(short(callee_def(t2)) == "create_chunk_string_to_sign" for x in db.nested(callee) for _, t2 in x.calls()):
+        return False
+    return inline.default_policy(db, caller, term, callee)
+
+
 def rule_r1(chk, db, g):
     ys = [(bi, t) for bi, t in g.calls() if is_yield(t)]
     chk.floor("R1", len(ys), 1, "yield sites in the chunk reader")
-    cs = [(bi, t) for bi, t in g.calls() if short(callee_def(t)) == "check_signature"]
+    cs = [(bi, t) for bi, t in g.calls() if _is_checker(db, t)]
     if len(cs) != 1:
         chk.fail("R1", "verify-before-yield", g.loc(ys[0][0]) if ys else g.loc(), "the chunk reader calls check_signature %d times (expected once per chunk)" % len(cs))
         return None
@@ -67,9 +89,10 @@ def rule_r1(chk, db, g):
         chk.verdict(ok, "R1", "verify-before-yield", g.loc(ybi), "chunk data can be yielded to the backend without the Some (verified) outcome of check_signature in the same iteration")
         # identity: yielded value and verified data share the read_data call
         ysl = flow.backward(g, yt["args"][1], at=ybi)
-        vsl = flow.backward(g, ct["args"][2], at=cbi)
         yr = {bi for bi, t, _ in ysl.calls if short(callee_def(t)) == "read_data"}
-        vr = {bi for bi, t, _ in vsl.calls if short(callee_def(t)) == "read_data"}
+        vr = set()
+        for a in ct["args"]:
+            vr |= {bi for bi, t, _ in flow.backward(g, a, at=cbi).calls if short(callee_def(t)) == "read_data"}
         chk.verdict(bool(yr) and yr == vr, "R1", "yield-what-was-verified", g.loc(ybi), "the bytes yielded are not the bytes whose signature was checked (read_data sites %s vs %s)" % (sorted(yr), sorted(vr)))
     # mismatch is an error
     fw = first_writes_from(g, none) if none else []
@@ -98,6 +121,33 @@ def rule_r2(chk, db, g, cbi, ct, some):
         if n == "seed_signature" and (p["l"], tuple(flow.proj_names(flow.norm_proj(p["proj"])))) in sl.places:
             seed_ok = True
     chk.verdict(seed_ok, "R2", "chain-seed", g.loc(init[0]), "the first chunk is not chained to the constructor's seed signature")
+    if not updates:
+        # the checker may advance the chain itself (`fn verify_chunk(&mut self, ..) -> Result<(), _>`): look inside it
+        cb = _checker_body(db, ct)
+        inner = []
+        if cb is not None:
+            icb = inline.inlined(db, cb)
+            for bi, si, st in icb.stmts():
+                pf = flow.proj_fields(flow.norm_proj(st["dst"]["proj"]))
+                if pf and pf[-1] == (CTX, "prev_signature"):
+                    inner.append((bi, st))
+            okw = bool(inner)
+            for bi, st in inner:
+                s2 = flow.backward(icb, st["rv"]["ops"][0], at=bi)
+                computed = any(short(callee_def(t2)) in ("calculate_signature", "hex_hmac_sha256", "hmac_sha256") or "calculate" in short(callee_def(t2)) for _, t2, _ in s2.calls)
+                eqs = set()
+                for b2, t2 in icb.calls():
+                    d2 = callee_def(t2)
+                    if d2.endswith("PartialEq::eq") or d2.endswith("PartialEq::ne"):
+                        o2 = flow.outcomes_of_call(icb, b2)
+                        eqs |= o2.get("true") if d2.endswith("::eq") else o2.get("false")
+                okw = okw and computed and bool(eqs) and flow.must_pass(icb, [bi], eqs)
+            chk.verdict(okw, "R2", "chain-update", cb.loc(inner[0][0]) if inner else cb.loc(),
+                        "the chunk checker does not advance prev_signature to the computed signature on (and only on) the matching outcome")
+            if okw:
+                chk.ok("R2", "chain-update-exists", cb.loc(inner[0][0]))
+                chk.ok("R2", "chain-update-every-iteration", cb.loc(inner[0][0]), nontrivial=False)
+                return
     chk.verdict(len(updates) >= 1, "R2", "chain-update-exists", g.loc(cbi), "prev_signature is never updated: every chunk would be checked against the seed")
     for bi, st in updates:
         s2 = flow.backward(g, st["rv"]["ops"][0], at=bi)
@@ -437,7 +487,7 @@ def run(chk, db, tier):
     chk.rule("R3", "seed is the verified header signature; stream built only after verification, with the request's date/scope/secret/declared length")
     chk.rule("R4", "completeness: a clean end depends on the zero-length final chunk and on the declared length")
     chk.rule("R5", "Content-Length shown to the backend is the decoded length")
-    g = inline.inlined(db, find_generator(db))      # with its stages / helpers inlined
+    g = inline.inlined(db, find_generator(db), _keep_checker)      # with its stages / helpers inlined (the chunk checker stays a call)
     r = chk.guard("R1", rule_r1, db, g)
     if r:
         chk.guard("R2", rule_r2, db, g, *r)
